@@ -33,7 +33,9 @@ Inductive jshape :=
 | JMapObj (k : leaf) (okey : val -> bytes) (a : jshape)
                                                  (* VMap l <-> {key string: value}; read back in the order of [okey] *)
 | JNullable (a : jshape)                         (* VNull <-> null *)
-| JIso (f g : val -> val) (a : jshape).          (* v <-> json of (f v); read back through g *)
+| JIso (f g : val -> val) (a : jshape)           (* v <-> json of (f v); read back through g *)
+| JCustom (w : val -> json) (r : json -> result val).
+                                                 (* a hand-written Serialize / Deserialize pair (embedded datum / metadatum JSON) *)
 
 Fixpoint name_index (s : bytes) (names : list bytes) (i : N) : option N :=
   match names with [] => None | n :: r => if bytes_eqb n s then Some i else name_index s r (i + 1) end.
@@ -220,6 +222,7 @@ Section Ext.
         end
     | JNullable a' => match v with VNull => JNull | _ => json_s a' v end
     | JIso f _ a' => json_s a' (f v)
+    | JCustom w _ => w v
     end.
 
   (* ---------- serde reads ---------- *)
@@ -277,6 +280,7 @@ Section Ext.
         end
     | JNullable a' => match j with JNull => Ok VNull | _ => of_json_s a' j end
     | JIso _ g a' => let* x := of_json_s a' j in Ok (g x)
+    | JCustom _ r => r j
     end.
 
   (* ---------- what comes back ---------- *)
@@ -315,6 +319,7 @@ Section Ext.
         end
     | JNullable a' => match v with VNull => VNull | _ => norm_s a' v end
     | JIso f g a' => g (norm_s a' (f v))
+    | JCustom w r => match r (w v) with Ok v' => v' | _ => v end
     end.
 
   (* ---------- domain ---------- *)
@@ -354,6 +359,7 @@ Section Ext.
         end
     | JNullable a' => match v with VNull => true | _ => jwf a' v && negb (is_jnull (json_s a' v)) end
     | JIso f _ a' => jwf a' (f v)
+    | JCustom w r => is_ok (r (w v))
     end.
 
   (* ---------- decidable equality on values (used by [canonical] at JIso nodes) ---------- *)
@@ -412,6 +418,7 @@ Section Ext.
         end
     | JNullable a' => match v with VNull => true | _ => canonical a' v end
     | JIso f g a' => canonical a' (f v) && val_eqb (g (f v)) v
+    | JCustom w r => match r (w v) with Ok v' => val_eqb v' v | _ => false end
     end.
 
   (* ---------- well-formed annotations: distinct field / variant names ---------- *)
@@ -427,5 +434,6 @@ Section Ext.
     | JMapObj _ _ a' => wfj a'
     | JNullable a' => wfj a'
     | JIso _ _ a' => wfj a'
+    | JCustom _ _ => true
     end.
 End Ext.
